@@ -138,7 +138,7 @@ def histories(ctx):
             ("MCHduForms", '{"none", "each"}'), ("MCKeyForms", '{"none", "one"}'),
             'Emit == HDone => PrintT(<<"H", ToJson([log |-> log])>>)']
     mod = tla.module("MCHistory", ["CollectionHistory", "Json"], defs)
-    r = ctx.tlc("MCHistory", extra={"MCHistory.tla": mod}, cfg_text=HCFG % "FALSE", workers=4, timeout=600)
+    r = ctx.tlc("MCHistory", extra={"MCHistory.tla": mod}, cfg_text=HCFG % "FALSE", workers=2, timeout=600)
     logs = sorted(set(tuple(x["log"]) for x in r.json_lines("H")))
     hists = [list(l) for l in logs if l[0] in ("d", "i") and l[1] in ("parity", "edit")]
     if len(hists) < 8:
@@ -685,10 +685,10 @@ def e2e_case(args):
 
 # ---------------------------------------------------------------------------------------------------
 
-def tlc_cases(ctx, name, layouts_text, maxfiles, hforms=ALL_FORMS, kforms=ALL_FORMS, theorems=True, disjoint=True):
+def tlc_cases(ctx, name, layouts_text, maxfiles, hforms=ALL_FORMS, kforms=ALL_FORMS, theorems=True, disjoint=True, workers=4):
     outp = os.path.join(ctx.scratch, "files-%s.json" % name)
     r = ctx.tlc("MCCollection", extra={"MCCollection.tla": mc_module(layouts_text, hforms, kforms, theorems, disjoint)},
-                cfg_text=CFG % maxfiles, env={"OUT": outp}, workers=4, timeout=1800)
+                cfg_text=CFG % maxfiles, env={"OUT": outp}, workers=workers, timeout=1800)
     recs = r.json_lines("R")
     if not recs or not os.path.exists(outp):
         ctx.machinery("TLC emitted no cases for %s" % name)
@@ -712,7 +712,13 @@ def run(ctx):
                 "crval, crpix) per input path plus the files to write; each case is loaded by the real code through "
                 "load / SimpleFitsCollection / `toasty view` argv / tile_fits and compared. non-trivial = some file contributes "
                 "an HDU other than 0 or a key other than ' '")
-    hists = histories(ctx)
+    # the three model-checking runs every tier needs are independent: run them side by side (2 + 3 + 2 TLC workers)
+    import concurrent.futures as cf
+    with cf.ThreadPoolExecutor(3) as tp:
+        f_h = tp.submit(histories, ctx)
+        f_5 = tp.submit(tlc_cases, ctx, "five3", LAYOUTS_5, 3, workers=3)
+        f_c = tp.submit(tlc_cases, ctx, "cubes1", CUBES_3, 1, theorems=False, workers=2)
+        hists, five3, cubes1 = f_h.result(), f_5.result(), f_c.result()
     cmds = cli_selection_commands()
     ctx.note("cli_subcommands_with_selection_options", cmds)
     for cmd in sorted(cmds):
@@ -722,10 +728,9 @@ def run(ctx):
         if cmd not in cmds:
             ctx.drift("subcommand `toasty %s` no longer accepts --hdu-index/--wcs-key" % cmd)
     groups = []     # (name, root, cases)
-    root, recs = tlc_cases(ctx, "five3", LAYOUTS_5, 3)
-    groups.append(("five3", root, recs))
+    groups.append(("five3",) + five3)
     # HDUs with more than two axes, in every axis order (quick: 12 curated cube HDUs, one input path; thorough: all)
-    groups.append(("cubes1",) + tlc_cases(ctx, "cubes1", CUBES_3, 1, theorems=False))
+    groups.append(("cubes1",) + cubes1)
     if not ctx.quick:
         l2, l3, n2, n3, lc, nc = all_layouts(ctx)
         ctx.note("layouts_up_to_2_hdus", n2)
